@@ -153,6 +153,9 @@ def eval_vdiff(triples, tier, rng):
 
 import fam_sets as FS
 import fam_sat as FT
+import fam_vparse as FV
+CLASSIFIERS['vparse_accept'] = lambda cls, f: f.get('kind') == 'vparse-loose-accept'
+CLASSIFIERS['vparse_roundtrip'] = lambda cls, f: f.get('kind') == 'vparse-rt-hyphenless-maxlen'
 
 # ================================================================== registry
 PROPERTIES = {
@@ -180,6 +183,22 @@ PROPERTIES = {
         'families': [{'name': 'extreme', 'gen': FT.gen_extreme, 'eval': FT.eval_extreme}],
         'rule': 'random ranges with version lists drawn around their bounds; non-trivial = calls for which at least two list elements satisfy the range',
         'explanation': 'theorems: the result is an element of the list, satisfies the range and is extreme among satisfying elements; None iff no element satisfies; permutation-invariant up to precedence-equality',
+    },
+    'C05': {
+        'families': [{'name': 'vparse', 'gen': FV.gen_vparse, 'eval': FV.eval_accept}],
+        'rule': 'vparse family: exhaustive short strings over the version alphabet, core-anchored strings, single edits of canonical versions, near-limit lengths and numbers, random strings; '
+                'each compared with an independent regular-expression reading of the grammar (acceptance and all five fields); non-trivial = accepted strings plus strings rejected after a complete major.minor.patch core',
+        'explanation': 'theorems: Version::parse s = Ok v iff s is lead major.minor.patch extras trail with the denoted fields (loose: hyphen optional before a letter-initial tag); every strict version text is accepted; junk examples by computation',
+    },
+    'C12': {
+        'families': [{'name': 'vparse', 'gen': FV.gen_vparse, 'eval': FV.eval_roundtrip}],
+        'rule': 'every accepted string of the vparse family is printed, re-parsed (all five fields compared) and round-tripped through serde_json; non-trivial = accepted strings whose printed form differs from the input',
+        'explanation': 'theorems: a parsed (or canonical) version whose printed form fits MAX_LENGTH parses back to itself; printing is a fixed point; the printed form is a strict version text over [0-9A-Za-z.+-]',
+    },
+    'C18': {
+        'families': [{'name': 'tuple', 'gen': FV.gen_tuple, 'eval': FV.eval_tuple}],
+        'rule': 'tuple family: the ten From impls on boundary-dense grids and random values; non-trivial = conversions with a component above 255 (beyond the narrowest type)',
+        'explanation': 'theorems: for 0 <= a,b,c <= MAX_SAFE_INTEGER (d < 2^64) the cast is the identity, the value prints as the dotted string and the dotted string parses to it',
     },
     'C07': {
         'families': [{'name': 'setops-isect', 'gen': FS.gen_setops(['isect']), 'eval': FS.eval_isect}],
